@@ -554,6 +554,124 @@ def _quadrature_guard(model, rep):
        fn.lineno)
 
 
+def _default_parameters(model, rep):
+    """x / h (/ n) come from the same mapping, points and subset as the
+    basis functions and dx; element_dofs honours the cell subset."""
+    from ..interp import Interp, Obj, PyFunc, Raised, Unsupported
+    R4 = "C01-R4"
+
+    class Rec:
+        skv_isarray = True
+
+        def __init__(self, what, args, kwargs):
+            self.what, self.args, self.kwargs = what, args, kwargs
+
+        def skv_binop(self, op, other, reflected):
+            return ("op", type(op).__name__, self, other)
+
+    class Stub:
+        def __init__(self, name):
+            self.name = name
+
+        def skv_getattr(self, attr):
+            return PyFunc(lambda a, k, n: Rec(f"{self.name}.{attr}", a, k))
+
+    def hook(interp, name, args, kwargs, node):
+        if name.endswith("DiscreteField"):
+            return ("field", args[0] if args else kwargs.get("value"))
+        if name in ("numpy.abs", "numpy.absolute"):
+            return AbsT(args[0])
+        return NotImplemented
+
+    class AbsT(tuple):
+        def __new__(cls, v):
+            return super().__new__(cls, ("abs", v))
+
+        def skv_binop(self, op, other, reflected):
+            return ("op", type(op).__name__, self, other)
+
+    def binpow(v):
+        # ("op", "Pow", ("abs", rec), exponent)
+        return v
+    for modn, clsn, sub, mapfn, detfn in (
+            ("cell_basis", "CellBasis", "tind", "F", "detDF"),
+            ("facet_basis", "FacetBasis", "find", "G", "detDG")):
+        cls = model.cls(f"skfem.assembly.basis.{modn}", clsn)
+        X, S = object(), object()
+        mesh = Obj(None, {"dim": PyFunc(lambda a, k, n: 3)})
+        obj = Obj(cls, {"mapping": Stub("mapping"), "X": X, sub: S,
+                        "mesh": mesh, "_global_coordinates": None,
+                        "_mesh_parameters": None, "normals": "NORMALS"})
+        try:
+            r = Interp(model, call_hook=hook).call(
+                cls.methods["default_parameters"], [], {}, self_obj=obj)
+        except (Unsupported, Raised) as e:
+            raise AnalysisError(f"{clsn}.default_parameters: {e}")
+        path, line = cls.path, cls.methods["default_parameters"].lineno
+
+        def at_subset(rec):
+            vals = list(rec.args[1:]) + list(rec.kwargs.values())
+            return isinstance(rec, Rec) and rec.args and rec.args[0] is X \
+                and any(v is S for v in vals)
+        x = r.get("x") if isinstance(r, dict) else None
+        okx = isinstance(x, tuple) and isinstance(x[1], Rec) and \
+            x[1].what == f"mapping.{mapfn}" and at_subset(x[1])
+        _v(rep, R4, okx, f"{clsn}.default_parameters:x",
+           f"w.x = mapping.{mapfn}(X, {sub}): the points dx and the basis "
+           f"belong to", path, f"{clsn}.global_coordinates",
+           f"w.x is not mapping.{mapfn} at the basis' points for the "
+           f"basis' {sub}", line)
+        h = r.get("h") if isinstance(r, dict) else None
+        okh = False
+        if isinstance(h, tuple) and isinstance(h[1], tuple) and \
+                h[1][0] == "op" and h[1][1] == "Pow":
+            base = h[1][2]
+            okh = (isinstance(base, tuple) and base[0] == "abs"
+                   and isinstance(base[1], Rec)
+                   and base[1].what == f"mapping.{detfn}"
+                   and at_subset(base[1]))
+        _v(rep, R4, okh, f"{clsn}.default_parameters:h",
+           f"w.h = |mapping.{detfn}(X, {sub})| ** (1/d)", path,
+           f"{clsn}.mesh_parameters",
+           f"w.h is not a power of |mapping.{detfn}| at the basis' points "
+           f"for the basis' {sub}", line)
+        if clsn == "FacetBasis":
+            _v(rep, R4, r.get("n") == "NORMALS",
+               "FacetBasis.default_parameters:n", "w.n = the basis' normals",
+               path, "FacetBasis.default_parameters",
+               "w.n is not the facet basis' own normal field", line)
+        keys = set(r) if isinstance(r, dict) else set()
+        want = {"x", "h"} | ({"n"} if clsn == "FacetBasis" else set())
+        _v(rep, R4, keys == want, f"{clsn}.default_parameters:keys",
+           f"provides {sorted(want)}", path, f"{clsn}.default_parameters",
+           f"default parameters are {sorted(keys)}, expected "
+           f"{sorted(want)}", line)
+    # element_dofs of a subset basis
+    acls = model.cls("skfem.assembly.basis.abstract_basis", "AbstractBasis")
+    fn = acls.methods["element_dofs"]
+
+    class ED:
+        def skv_getitem(self, ix):
+            return ("cols", ix)
+    for tind in (None, "TIND"):
+        ed = ED()
+        obj = Obj(acls, {"tind": tind, "dofs": Obj(None, {"element_dofs":
+                                                          ed})})
+        try:
+            r = Interp(model).call(fn, [], {}, self_obj=obj)
+        except (Unsupported, Raised) as e:
+            raise AnalysisError(f"AbstractBasis.element_dofs: {e}")
+        ok = (r is ed) if tind is None else \
+            (r == ("cols", (slice(None), "TIND")))
+        _v(rep, R4, ok,
+           f"AbstractBasis.element_dofs[{'subset' if tind else 'all'}]",
+           "rows/cols of assembled entries come from the cells the basis "
+           "integrates over", acls.path, "AbstractBasis.element_dofs",
+           f"element_dofs of a basis on {'a cell subset' if tind else 'all cells'} "
+           f"is {r!r}: index arrays and integrated cells do not match",
+           fn.lineno)
+
+
 def run(model: Model, rep, tier: str) -> None:
     rep.rule("C01-R1", "roles: rows<-test DOFs, cols<-trial DOFs for the "
              "local functions the integrand was called with (trial first); "
@@ -636,6 +754,7 @@ def run(model: Model, rep, tier: str) -> None:
                f"{len(vals)} producer runs merge defaults and keywords the "
                f"same way")
     _interpolate_rule(model, rep)
+    _default_parameters(model, rep)
     _normalize_rule(model, rep)
     _consumers(model, rep)
     rep.require_min("C01-R1", 40)
@@ -734,6 +853,20 @@ MUTANTS = [
     ("COO dot: gathers at the row index",
      (_CO, "y = self.data * x[self.indices[1]]", "y = self.data * "
       "x[self.indices[0]]"), "C01-R2"),
+    ("cell basis: w.x for all cells although a subset is integrated",
+     ("skfem/assembly/basis/cell_basis.py",
+      "                self.mapping.F(self.X, tind=self.tind)\n",
+      "                self.mapping.F(self.X)\n"), "C01-R4"),
+    ("facet basis: mesh parameter from the cell determinant",
+     ("skfem/assembly/basis/facet_basis.py",
+      "                (np.abs(self.mapping.detDG(self.X, self.find))",
+      "                (np.abs(self.mapping.detDF(self.X, self.tind))"),
+     "C01-R4"),
+    ("subset basis keeps the DOF table of all cells",
+     ("skfem/assembly/basis/abstract_basis.py",
+      "                self._element_dofs = self.dofs.element_dofs[:, "
+      "self.tind]", "                self._element_dofs = "
+      "self.dofs.element_dofs"), "C01-R4"),
     ("normalisation: unknown types pass through",
      (_FM, "            else:\n                raise ValueError(\"The given "
       "type '{}' for the list of extra \"",
